@@ -421,7 +421,13 @@ def rule_r4(ctx: Ctx) -> None:
         if m.fullname in seen:
             return False
         seen.add(m.fullname)
+        adopts = any(isinstance(x, ast.Attribute) and x.attr == "__dict__" and isinstance(x.value, ast.Name) and x.value.id == "self"
+                     for x in walk_local(m.node)) or any(isinstance(x, ast.Call) and call_name(x) in ("setattr", "vars") for x in walk_local(m.node))
         for c in walk_local(m.node):
+            if adopts and isinstance(c, ast.Call) and (isinstance(c.func, ast.Name) and c.func.id == gcls.name
+                                                       or isinstance(c.func, ast.Call) and call_name(c.func) == "type"
+                                                       or isinstance(c.func, ast.Attribute) and c.func.attr == "__class__"):
+                return True     # builds a fresh grammar and adopts its state: the same obligation as re-running __init__
             if isinstance(c, ast.Call) and isinstance(c.func, ast.Attribute) and isinstance(c.func.value, ast.Name) and c.func.value.id == "self":
                 if c.func.attr == "__init__":
                     return True
@@ -444,7 +450,9 @@ def rule_r4(ctx: Ctx) -> None:
         for p_ in m.params[1:]:
             env[p_] = Sym(p_)
 
-        def call_model(it, call, env_, args, kwargs):
+        fresh_args: list = []
+
+        def call_model(it, call, env_, args, kwargs, fresh_args=fresh_args):
             nm = call_name(call)
             if nm in ("register_type", "preprocess", "warn"):
                 return _NONE
@@ -452,6 +460,16 @@ def rule_r4(ctx: Ctx) -> None:
                 return True
             if nm == "get_gengy":
                 return {}
+            if isinstance(call.func, ast.Name) and call.func.id == gcls.name or isinstance(call.func, ast.Call) and call_name(call.func) == "type" \
+                    or isinstance(call.func, ast.Attribute) and call.func.attr == "__class__":
+                bound = dict(zip(init.params[1:], args))
+                bound.update(kwargs)
+                a_ = init.node.args
+                for p_, d_ in zip([x.arg for x in a_.args][len(a_.args) - len(a_.defaults):], a_.defaults):
+                    if p_ not in bound and isinstance(d_, ast.Constant):
+                        bound[p_] = d_.value
+                fresh_args.append(bound)
+                return Sym("fresh-grammar")
             return None
 
         it = Interp(prog, gcls, lambda *_: None, call_model, max_depth=5, max_traces=32)
@@ -482,6 +500,19 @@ def rule_r4(ctx: Ctx) -> None:
                 break
             if verdict is False:
                 break
+        # a fresh grammar whose state is adopted must be built with the current configuration
+        for bound in fresh_args:
+            for attr, param in config:
+                before = env.get(f"self.{attr}")
+                got = bound.get(param, UNKNOWN)
+                same = got == before or (isinstance(got, list) and isinstance(before, list) and got == before)
+                if not same and verdict is not False:
+                    if got is UNKNOWN:
+                        verdict, why = None, f"the '{param}' handed to the fresh grammar is not followed"
+                    else:
+                        verdict = False
+                        why = (f"{name}() adopts the state of a fresh grammar built with {param} = {got!r}; the grammar's {attr} was {before!r}: "
+                               f"the analysis is redone with another configuration (e.g. minimum depths of the other depth-counting mode)")
         ctx.ob("C05.R4", m, m.node, construct, verdict, why)
     ctx.floor("C05.R4", n, 1, "Grammar methods that re-initialise the grammar in place")
 
@@ -541,7 +572,7 @@ def run(ctx: Ctx) -> None:
     ctx.rule("C05.R6", "end to end on model grammars (Grammar.__init__, register_type, preprocess interpreted): productions, minimum "
                        "depths and the recursive set equal the reference computed from the specification, both depth modes")
     n6 = analysis_rule(ctx, "C05.R6", ("productions", "distance", "recursive", "usable"))
-    ctx.floor("C05.R6", n6, 48, "model grammar x mode x aspect")
+    ctx.floor("C05.R6", n6, 60, "model grammar x mode x aspect")
     ctx.rule("C05.R5", "weight normalisation completes on every grammar extract_grammar accepts (supplied classes need not be reachable)")
     rule_r5(ctx)
     ctx.rule("C05.R4", "a grammar that redoes its analysis in place keeps its start symbol, supplied classes and depth-counting mode")
